@@ -162,8 +162,10 @@ Record oracle := mkOracle {
   o_leak : Z -> Z;        (* coins the module account received during the message from
                              x/distribution's delegation hooks (auto-withdrawal), per denom *)
   o_rw : Z -> Z -> Z;     (* end-block: MsgWithdrawDelegatorRewardResponse.Amount per validator, denom *)
-  o_released : Z          (* end-block: bond coins x/staking paid to the module account for
+  o_released : Z;         (* end-block: bond coins x/staking paid to the module account for
                              unbonding entries it completed in this block *)
+  o_ret : Z               (* staking MsgUndelegateResponse.Amount: what staking really unbonds
+                             (= the requested amount while the validator's exchange rate is 1) *)
 }.
 
 Definition add_leak (s : state) (o : oracle) : Z -> Z :=
@@ -211,7 +213,8 @@ Fixpoint q_insert (e : unb) (q : list unb) : list unb :=
    recipient string. Staking contract used: MsgUndelegate is refused when there is no
    delegation, when amt exceeds its balance, or when the (module, validator) pair already has
    max_entries unbonding entries; otherwise the delegation balance falls by exactly amt (the
-   delegation disappears at 0) and the completion time is returned. *)
+   delegation disappears at 0) and the completion time and the amount really unbonded are
+   returned; the queue records the latter. *)
 Definition undelegate (s : state) (o : oracle) (u v amt dn rcp : Z) : res state :=
   if negb (dn =? FEE) then Err E_INVALID_COINS else
   if amt <=? 0 then Err E_INVALID_COINS else
@@ -232,7 +235,7 @@ Definition undelegate (s : state) (o : oracle) (u v amt dn rcp : Z) : res state 
                      (if b - amt =? 0 then None else Some (b - amt))
                      (csd c1) (cent c1) (cS c1) (cM c1) (cchk c1) in
     Ok (mkState (upd (cells s) v c2) ub1 (add_leak s o)
-                (q_insert (mkUnb (next_id s) rcp (o_ct o) amt) (queue s)) (next_id s + 1))
+                (q_insert (mkUnb (next_id s) rcp (o_ct o) (o_ret o)) (queue s)) (next_id s + 1))
   end.
 
 (* bank MsgSend of a share denom between two users *)
